@@ -10,15 +10,31 @@ use crate::ByteOrder;
 /// Either Ok(amount_of_bytes) or Err(position, ErrorCode)
 pub type ValidationResult = Result<usize, (usize, UnmarshalError)>;
 
+/// The maximum depth of nested containers (arrays, structs, dict entries and variants) in a message
+pub const MAX_NESTING_DEPTH: usize = 64;
+
 pub fn validate_marshalled(
     byteorder: ByteOrder,
     offset: usize,
     raw: &[u8],
     sig: &signature::Type,
 ) -> ValidationResult {
+    validate_marshalled_at_depth(byteorder, offset, raw, sig, 0)
+}
+
+/// Like validate_marshalled, but for a value that is already nested in `depth` containers
+pub(crate) fn validate_marshalled_at_depth(
+    byteorder: ByteOrder,
+    offset: usize,
+    raw: &[u8],
+    sig: &signature::Type,
+    depth: usize,
+) -> ValidationResult {
     match sig {
         signature::Type::Base(b) => validate_marshalled_base(byteorder, offset, raw, *b),
-        signature::Type::Container(c) => validate_marshalled_container(byteorder, offset, raw, c),
+        signature::Type::Container(c) => {
+            validate_marshalled_container_at_depth(byteorder, offset, raw, c, depth)
+        }
     }
 }
 
@@ -130,6 +146,25 @@ pub fn validate_marshalled_container(
     buf: &[u8],
     sig: &signature::Container,
 ) -> ValidationResult {
+    validate_marshalled_container_at_depth(byteorder, offset, buf, sig, 0)
+}
+
+fn validate_marshalled_container_at_depth(
+    byteorder: ByteOrder,
+    offset: usize,
+    buf: &[u8],
+    sig: &signature::Container,
+    depth: usize,
+) -> ValidationResult {
+    // a dict counts twice, once for the array and once for the dict entries
+    let own_levels = match sig {
+        signature::Container::Dict(_, _) => 2,
+        _ => 1,
+    };
+    let depth = depth + own_levels;
+    if depth > MAX_NESTING_DEPTH {
+        return Err((offset, signature::Error::NestingTooDeep.into()));
+    }
     match sig {
         signature::Container::Array(elem_sig) => {
             let padding = util::align_offset(4, buf, offset).map_err(|err| (offset, err))?;
@@ -161,11 +196,12 @@ pub fn validate_marshalled_container(
                 let mut bytes_used_counter = 0;
                 let array_end = offset + bytes_in_array as usize;
                 while bytes_used_counter < bytes_in_array as usize {
-                    let bytes_used = validate_marshalled(
+                    let bytes_used = validate_marshalled_at_depth(
                         byteorder,
                         offset + bytes_used_counter,
                         &buf[..array_end],
                         elem_sig,
+                        depth,
                     )?;
                     bytes_used_counter += bytes_used;
                 }
@@ -208,11 +244,12 @@ pub fn validate_marshalled_container(
                     *key_sig,
                 )?;
                 bytes_used_counter += key_bytes;
-                let val_bytes = validate_marshalled(
+                let val_bytes = validate_marshalled_at_depth(
                     byteorder,
                     offset + bytes_used_counter,
                     buf_for_dict,
                     val_sig,
+                    depth,
                 )?;
                 bytes_used_counter += val_bytes;
             }
@@ -224,8 +261,13 @@ pub fn validate_marshalled_container(
 
             let mut bytes_used_counter = 0;
             for field_sig in sigs.as_ref() {
-                let bytes_used =
-                    validate_marshalled(byteorder, offset + bytes_used_counter, buf, field_sig)?;
+                let bytes_used = validate_marshalled_at_depth(
+                    byteorder,
+                    offset + bytes_used_counter,
+                    buf,
+                    field_sig,
+                    depth,
+                )?;
                 bytes_used_counter += bytes_used;
             }
             Ok(padding + bytes_used_counter)
@@ -242,7 +284,8 @@ pub fn validate_marshalled_container(
             let sig = sig.remove(0);
             let offset = offset + sig_bytes_used;
 
-            let param_bytes_used = validate_marshalled(byteorder, offset, buf, &sig)?;
+            let param_bytes_used =
+                validate_marshalled_at_depth(byteorder, offset, buf, &sig, depth)?;
             Ok(sig_bytes_used + param_bytes_used)
         }
     }
